@@ -1,0 +1,74 @@
+//go:build verif
+
+// Contracts for the fault-injection set, checked by /verif/govc (property C18).
+// This file holds comments only; it is compiled only with the "verif" tag.
+
+package faults
+
+//@ func (*Description).match(d, op, params) (result)
+//@   property C18
+//@   uses faultspec
+//@   requires d != nil
+//@   ensures rule: result <==> matches(d, op, params)
+//@   modifies nothing
+//@   loop 1
+//@     invariant forall p string :: visited(p) ==> has(params, p) && params[p] == d.Parameters[p]
+
+//@ func (*Set).match(s, op, params) (result)
+//@   property C18
+//@   uses faultspec
+//@   requires s != nil && set_wf(s)
+//@   ensures found: result != nil ==> (exists i int :: 0 <= i && i < len(s.faults[op]) && s.faults[op][i] == result) && matches(result, op, params)
+//@   ensures none: result == nil ==> (forall i int :: 0 <= i && i < len(s.faults[op]) ==> !matches(s.faults[op][i], op, params))
+//@   modifies nothing
+//@   loop 1
+//@     invariant forall i int :: 0 <= i && i <= idx ==> !matches(s.faults[op][i], op, params)
+
+// The fault handler stored in a Description: called through the field, never
+// with a negative remaining count.
+//@ func Description.OnFault(desc, params) (err)
+//@   abstract
+//@   property C18
+//@   uses faultspec
+//@   requires remaining_nonneg: desc.Count >= 0
+//@   modifies S:onfault_calls
+//@   ensures onfault_calls() == old(onfault_calls()) + 1
+
+// Sequential semantics (atomics are plain reads/writes; their linearisability is the assumed axiom).
+//@ func (*Set).Check(s, op, params) (err)
+//@   property C18
+//@   uses faultspec
+//@   requires s != nil && set_wf(s)
+//@   ensures nonmatching_never_fails: (forall i int :: 0 <= i && i < len(old(s.faults[op])) ==> !old(matches(s.faults[op][i], op, params))) ==>
+//@             err == nil && onfault_calls() == old(onfault_calls()) && (forall d *Description :: d.Count == old(d.Count))
+//@   ensures matching_fires_once: (exists i int :: 0 <= i && i < len(old(s.faults[op])) && old(matches(s.faults[op][i], op, params))) ==>
+//@             onfault_calls() == old(onfault_calls()) + 1
+//@   ensures at_most_once: onfault_calls() <= old(onfault_calls()) + 1
+//@   ensures one_decrement: forall d *Description :: allocated(d) ==> d.Count == old(d.Count) ||
+//@             (d.Count == old(d.Count) - 1 && old(matches(d, op, params)) && onfault_calls() == old(onfault_calls()) + 1 &&
+//@              (forall d2 *Description :: allocated(d2) && d2 != d ==> d2.Count == old(d2.Count)))
+//@   modifies F:faults.Description:Count, S:onfault_calls
+//@   loop 1
+//@     invariant onfault_calls() == old(onfault_calls())
+//@     invariant forall d *Description :: d.Count == old(d.Count)
+
+// Racing semantics: every atomic access may observe a value changed by other goroutines.
+//@ func (*Set).Check~racy(s, op, params) (err)
+//@   property C18
+//@   uses faultspec
+//@   option atomic interference
+//@   requires s != nil && set_wf(s)
+//@   ensures at_most_once: onfault_calls() <= old(onfault_calls()) + 1
+//@   ensures error_only_from_handler: err != nil ==> onfault_calls() == old(onfault_calls()) + 1
+//@   loop 1
+//@     invariant onfault_calls() == old(onfault_calls())
+
+//@ func (*Set).Add(s, d)
+//@   property C18
+//@   uses faultspec
+//@   requires s != nil && set_wf(s)
+//@   ensures wf: set_wf(s)
+//@   ensures added: has(s.faults, d.Operation) && len(s.faults[d.Operation]) == len(old(s.faults[d.Operation])) + 1
+//@   ensures last: deref(s.faults[d.Operation][len(s.faults[d.Operation]) - 1]) == d
+//@   ensures kept: forall i int :: 0 <= i && i < len(old(s.faults[d.Operation])) ==> s.faults[d.Operation][i] == old(s.faults[d.Operation][i])
+//@   ensures others: forall o string :: o != d.Operation ==> has(s.faults, o) == old(has(s.faults, o)) && s.faults[o] == old(s.faults[o])
